@@ -197,10 +197,19 @@ def scn(params):
                                           "%s spins: its select() keeps reporting a readable descriptor that it never reads, and it does nothing else any more"
                                           % dead[0][0], dict(wit, time_us=k.now)))
                 return out
-            if h.startswith("sanitizer") or h == "stalled":
-                # memory-safety / termination failures belong to C05/C06; here the run is inconclusive
-                out["inconclusive"] = "process-" + h.split(":")[0]
+            if h.startswith("sanitizer"):
+                # Only the two real programs and a relay that drops / repeats / delays whole datagrams take part here: a
+                # program killed by a sanitizer report in such a run delivers nothing any more "without restarting" - the
+                # property is violated whatever C05/C06 (hostile input) say about the same defect.
+                who = "server" if dead[0][0] == "srv" else "client"
+                key = h.split(":", 1)[1]
+                out["violations"].append(("C02:process-died:%s:%s" % (who, key),
+                                          "%s was killed by a sanitizer report (%s) while tunnelling ordinary traffic" % (dead[0][0], key),
+                                          dict(wit, report=k.sanitizer_report(k.procs[dead[0][0]])[-2000:], time_us=k.now)))
                 out["stats"]["sanitizer_aborts"] = 1
+                return out
+            if h == "stalled":
+                out["inconclusive"] = "process-stalled"
                 return out
             out["violations"].append(("C02:process-exited:%s" % ("server" if dead[0][0] == "srv" else "client"),
                                       "%s exited (%s) although the path never stayed silent for 60 s" % dead[0],
